@@ -82,13 +82,18 @@ def run_segy(case, ctx):
     if src.get('segyio_structured'):
         return {'nontrivial': False, 'counters': {'skipped_segyio_infers_regular_cube': 1}}
     out = ctx['scratch'].file('o.sgz')
-    bs = (1, 16, -1) if geom == '2d' else (4, 4, -1)
+    # block footprints: square and not (the footer follows the data section, whose stated length depends on the padded extents)
+    import zlib
+    pick = zlib.crc32(case['id'].encode())
+    bs = [(1, 16, -1), (1, 4, -1), (1, 64, -1)][pick % 3] if geom == '2d' else [(4, 4, -1), (4, 4, -1), (4, 16, -1), (16, 4, -1), (8, 4, -1), (8, 8, -1), (4, 8, -1)][pick % 7]
+    if case['rate'] * bs[0] * bs[1] > 2048:
+        bs = (1, 16, -1) if geom == '2d' else (4, 4, -1)
     conv.convert_segy(src['path'], out, case['rate'], bs, reduce_iops=case.get('reduce_iops', False), detection=mode)
     H = src['headers']
     n = src['ntraces']
     exact = conv.must_be_exact(src, mode)
     bad = []
-    strata = {'geom:' + geom, 'mode:' + mode, '4n%%512:%s' % ({0: '0', 4: '4', 508: '508'}.get((4 * (n if geom == '2d' else int(np.prod(case['src']['shape'][:2])))) % 512, 'other'))}
+    strata = {'footprint:%s' % ('square' if bs[0] == bs[1] or geom == '2d' else 'non-square'), 'geom:' + geom, 'mode:' + mode, '4n%%512:%s' % ({0: '0', 4: '4', 508: '508'}.get((4 * (n if geom == '2d' else int(np.prod(case['src']['shape'][:2])))) % 512, 'other'))}
     for c in src.get('hdr_classes', {}).values():
         strata.add('class:' + c)
     inside = gen.heuristic_precondition(H)
@@ -238,7 +243,7 @@ def run_case(case, ctx):
 
 def finalize(tier, cases, results, counters, strata):
     reasons = []
-    need = ['geom:3d', 'geom:irregular', 'geom:2d', 'geom:numpy', 'mode:heuristic', 'mode:thorough', 'mode:exhaustive', 'mode:strip',
+    need = ['footprint:square', 'footprint:non-square', 'geom:3d', 'geom:irregular', 'geom:2d', 'geom:numpy', 'mode:heuristic', 'mode:thorough', 'mode:exhaustive', 'mode:strip',
             'class:const', 'class:vary', 'class:dup', 'class:extreme', 'class:neg', 'class:zerofirst', 'arrays>=3', '4n%512:0',
             'precondition:inside', 'dtype:int64', 'dtype:int16', 'layout:F', 'layout:bcast', 'key:above193', 'key:below189']
     for s in need:
